@@ -1014,6 +1014,10 @@ func Main(wide bool) {
 			w := strings.Fields(l)
 			if len(w) > 0 && (w[0] == "rx" || w[0] == "rxk" || w[0] == "rxo" || w[0] == "rd" || w[0] == "rdo") {
 				fmt.Println(RunRx(l)) // executed on the real receive loop
+			} else if len(w) > 0 && w[0] == "jr" {
+				fmt.Println(RunJourney(l)) // executed on a real Conn with real callers over a scripted transport
+			} else if len(w) > 0 && (w[0] == "cf" || w[0] == "cfk") {
+				fmt.Println(RunCloseFault(l)) // executed on a real Session over transports whose Close fails
 			} else if len(w) > 0 && (w[0] == "avail" || w[0] == "calls" || w[0] == "alive" || w[0] == "probes") {
 				fmt.Println("(recorded)")
 			} else {
@@ -1053,6 +1057,43 @@ func Main(wide bool) {
 			os.WriteFile(path+"/fatal.txt", []byte("receive loop blocked on a scripted socket\n"+gocql.VerifLastHangDump), 0o644)
 		}
 	}
+	// the journey of a response through the real receive loop with real callers, event-ordered (C06)
+	njr := 0
+	if wide {
+		rj := vh.NewRng(vh.EnvSeed() ^ 0x6a6f7572)
+		n := 1200
+		if tier == "thorough" {
+			n = 40000
+		}
+		for i := 0; i < n; i++ {
+			line, cls := GenJourney(rj)
+			out.Case(line, RunJourney(line), cls, true)
+			njr++
+		}
+		if jrHung {
+			os.WriteFile(path+"/fatal.txt", []byte(JrHangDump), 0o644)
+		}
+	}
+	// closing pools / sessions / connections over transports whose Close() reports an error (C06)
+	ncf := 0
+	if wide && !jrHung {
+		rc := vh.NewRng(vh.EnvSeed() ^ 0x636c6f73)
+		n := 120
+		if tier == "thorough" {
+			n = 3000
+		}
+		for i := 0; i < n; i++ {
+			line, cls := GenCloseFault(rc)
+			out.Case(line, RunCloseFault(line), cls, true)
+			ncf++
+		}
+		if cfHung {
+			os.WriteFile(path+"/fatal.txt", []byte(CfHangDump), 0o644)
+		}
+	}
+	if jrHung || cfHung {
+		runs = 0 // one confirmed hang is the verdict; the goroutines of that run are still around
+	}
 	nreq := 0
 	kinds := map[string]int{}
 	shape := map[string]int{}
@@ -1087,5 +1128,5 @@ func Main(wide bool) {
 	if len(odd) > 0 {
 		os.WriteFile(path+"/odd_errors.txt", []byte(strings.Join(odd, "\n")+"\n"), 0o644)
 	}
-	out.Close(map[string]interface{}{"scenarios": runs, "requests_observed": nreq, "scripted_socket_cases": nrx, "answer_kinds": kinds, "write_shapes": shape})
+	out.Close(map[string]interface{}{"scenarios": runs, "requests_observed": nreq, "scripted_socket_cases": nrx, "journey_cases": njr, "close_fault_cases": ncf, "answer_kinds": kinds, "write_shapes": shape})
 }
